@@ -436,6 +436,26 @@ def simple_expr(chain, variant, mchain):
                     f"|> |z| {{ rt::sem::tick(&__cnt); z }} }}).map(|p| p.0)")
         return (f"rt::sem::spin({m}! {{ futures::future::ready(x) |> >>> {mchain}, futures::future::ready(0i64) "
                 f"|> |z| {{ rt::sem::tick(&__cnt); z }} }}).0")
+    if variant.startswith("mirror|"):
+        # the chain as branch 0 next to siblings that have a block capture at member 0 of every step: whatever member index j a
+        # capture of the chain has, branch j holds one at the mirrored (branch, member) position (internal names are per
+        # (branch, member, operand)); the siblings' values are checked too
+        m = variant.split("|")[1]
+        steps = 1 + sum(1 for it in chain["items"] if it["deferred"])
+        width, cur = 1, 1
+        for it in chain["items"]:
+            cur = 1 if it["deferred"] else cur + 1
+            width = max(width, cur)
+        sibs, checks = [], []
+        for j in range(1, width + 1):
+            t = f"{{ Some(rt::sem::sib({j}, 0)) }}"
+            want = 100 * j
+            for st in range(1, steps):
+                t += f" ~|> {{ let __k = rt::sem::sib({j}, {st}); move |v: i64| v + __k }}"
+                want += 100 * j + st
+            sibs.append(t)
+            checks.append(f"rt::sem::sib_check({j}, &__t.{j}, Some({want}i64));")
+        return f"{{ let __t = {m}! {{ x {mchain}, {', '.join(sibs)} }}; {' '.join(checks)} __t.0 }}"
     if variant == "join_async":
         return f"futures::executor::block_on(join_async! {{ futures::stream::iter(x) {mchain} }})"
     if variant == "join_async_spawn":
